@@ -160,6 +160,7 @@ type vfC03Case struct {
 	Base      string   `json:"base"`
 	Mut       []string `json:"mut"`                 // "field=op"
 	Congested bool     `json:"congested,omitempty"` // the validation pipeline is full while the candidate arrives
+	ByAuthor  bool     `json:"by_author,omitempty"` // the candidate arrives over the connection of the peer it names as author
 }
 
 var vfC03Fields = []string{"data", "topic", "from", "seqno", "key", "sig", "unknown"}
@@ -332,6 +333,9 @@ type vfC03Node struct {
 	anon   bool
 }
 
+// vfC03Sender: when set, the identity of the peer that delivers the candidates (see vfC03ByAuthor).
+var vfC03Sender *vfKeyed
+
 func vfC03NewNode(policy MessageSignaturePolicy, anon bool, extra ...Option) *vfC03Node {
 	w := newVfWorld()
 	opts := []Option{WithMessageSignaturePolicy(policy), WithMessageIdFn(func(m *pb.Message) string {
@@ -348,7 +352,17 @@ func vfC03NewNode(policy MessageSignaturePolicy, anon bool, extra ...Option) *vf
 		panic(err)
 	}
 	c := &vfC03Node{w: w, n: n, policy: policy, anon: anon}
-	c.a, c.b = newVfFake(w, "a", FloodSubID), newVfFake(w, "b", FloodSubID)
+	sender := "a"
+	if vfC03Sender != nil {
+		// the sending peer IS the author key's peer (the stub network needs no handshake, any identity will do)
+		sender = "author-" + vfC03Sender.name
+		vfIdentMu.Lock()
+		id := &vfIdent{id: vfC03Sender.id, priv: vfC03Sender.priv, name: sender}
+		vfIdentCache[sender] = id
+		vfIdentByID[vfC03Sender.id] = id
+		vfIdentMu.Unlock()
+	}
+	c.a, c.b = newVfFake(w, sender, FloodSubID), newVfFake(w, "b", FloodSubID)
 	for _, f := range []*vfFake{c.a, c.b} {
 		w.connect(f.ident.id, n.id(), "10.0.0.1", "10.0.0.2")
 		synctest.Wait()
@@ -395,6 +409,11 @@ func vfC03Policies() []MessageSignaturePolicy {
 // vfC03Congested: the group runs against a node whose validation pipeline is full (set around a call of RunGroup).
 var vfC03Congested bool
 
+// vfC03ByAuthor: the candidates of the group are delivered by the very peer whose key signed the base message (the
+// first hop of an honest message looks like this; a forgery sent by its claimed author must fare no better than one
+// relayed by a third party).
+var vfC03ByAuthor bool
+
 func vfC03RunGroup(r *vfRun, policy MessageSignaturePolicy, anon bool, base string, muts [][]string) {
 	keys := vfC03KeySet()
 	var k *vfKeyed
@@ -406,6 +425,12 @@ func vfC03RunGroup(r *vfRun, policy MessageSignaturePolicy, anon bool, base stri
 	}
 	p := vfBubble(r.t, func() {
 		var node *vfC03Node
+		vfC03Sender = nil
+		if vfC03ByAuthor {
+			vfC03Sender = k
+			r.count("groups_delivered_by_the_claimed_author", 1)
+		}
+		defer func() { vfC03Sender = nil }()
 		if vfC03Congested {
 			// one validation worker parked in a validator of topic "u" and a queue of one, already taken: whatever
 			// arrives now finds the pipeline full (and must be dropped, never waved through unverified)
@@ -456,7 +481,7 @@ func vfC03RunGroup(r *vfRun, policy MessageSignaturePolicy, anon bool, base stri
 				r.res.Executions++
 				continue // not a topic the node follows: never looked at
 			}
-			cs := vfC03Case{Policy: int(policy), Anonymous: anon, Base: base, Mut: mu, Congested: vfC03Congested}
+			cs := vfC03Case{Policy: int(policy), Anonymous: anon, Base: base, Mut: mu, Congested: vfC03Congested, ByAuthor: vfC03ByAuthor}
 			r.mark(cs)
 			d, f := node.feed(cand)
 			r.res.Executions++
@@ -665,6 +690,10 @@ func init() {
 							return
 						}
 						vfC03RunGroup(r, policy, anon, base, muts)
+						// the same candidates arriving from the peer they name as author
+						vfC03ByAuthor = true
+						vfC03RunGroup(r, policy, anon, base, muts)
+						vfC03ByAuthor = false
 						if base == bases[0] {
 							// the same candidates against a node whose validation pipeline is full
 							vfC03Congested = true
@@ -699,9 +728,9 @@ func init() {
 				}
 				return
 			}
-			vfC03Congested = c.Congested
+			vfC03Congested, vfC03ByAuthor = c.Congested, c.ByAuthor
 			vfC03RunGroup(r, MessageSignaturePolicy(c.Policy), c.Anonymous, c.Base, [][]string{c.Mut})
-			vfC03Congested = false
+			vfC03Congested, vfC03ByAuthor = false, false
 		},
 	})
 }
